@@ -683,4 +683,86 @@ example : ((Res.new 3 |>.push 7 0 |>.push 8 0 |>.push 9 0).drainIt.runIt [.nth 1
 example : (Builder.configure [.size 4, .sampling true, .size 7]).histogram = .sampled (ASR.new 7) := by decide
 example : (Builder.configure [.size 4]).histogram = .raw := by decide
 
+/-! ## whole histories: counts are conserved across any number of push/drain cycles (session 4) -/
+
+/-- what the drains of a history report in total: the sum of `unsampled_len` over every `consume` of `ops`, started
+    in state `a` (each drain read through the model's own `ASR.consume`, not through the ghost `pendOf`) -/
+def reportedTotal (a : ASR) : List Op → Nat
+  | [] => 0
+  | .push v c :: ops => reportedTotal (a.push v c) ops
+  | .consume :: ops => a.consume.2.unsampled + reportedTotal a.consume.1 ops
+
+/-- the values the drains of a history hand out in total -/
+def yieldedTotal (a : ASR) : List Op → Nat
+  | [] => 0
+  | .push v c :: ops => yieldedTotal (a.push v c) ops
+  | .consume :: ops => a.consume.2.values.length + yieldedTotal a.consume.1 ops
+
+/-- number of `push` operations of a history -/
+def pushesIn : List Op → Nat
+  | [] => 0
+  | .push _ _ :: ops => pushesIn ops + 1
+  | .consume :: ops => pushesIn ops
+
+private theorem pendOf_snoc_push (pre : List Op) (v c : Nat) : pendOf (pre ++ [Op.push v c]) = pendOf pre ++ [v] := by
+  simp [pendOf, List.foldl_append, pendStep]
+
+private theorem pendOf_snoc_consume (pre : List Op) : pendOf (pre ++ [Op.consume]) = [] := by
+  simp [pendOf, List.foldl_append, pendStep]
+
+private theorem run_snoc (a : ASR) (pre : List Op) (op : Op) : run a (pre ++ [op]) = step (run a pre) op := by
+  simp [run, List.foldl_append]
+
+private theorem conservation_gen (cap : Nat) (rest : List Op) : ∀ pre : List Op,
+    reportedTotal (run (ASR.new cap) pre) rest + (pendOf (pre ++ rest)).length
+      = (pendOf pre).length + pushesIn rest
+    ∧ yieldedTotal (run (ASR.new cap) pre) rest ≤ reportedTotal (run (ASR.new cap) pre) rest := by
+  induction rest with
+  | nil => intro pre; simp [reportedTotal, yieldedTotal, pushesIn]
+  | cons op rest ih =>
+    intro pre
+    have e : pre ++ op :: rest = (pre ++ [op]) ++ rest := by simp
+    cases op with
+    | push v c =>
+      have h := ih (pre ++ [Op.push v c])
+      rw [run_snoc, pendOf_snoc_push] at h
+      simp only [step, List.length_append, List.length_cons, List.length_nil] at h
+      rw [e]
+      simp only [reportedTotal, yieldedTotal, pushesIn]
+      omega
+    | consume =>
+      have h := ih (pre ++ [Op.consume])
+      rw [run_snoc, pendOf_snoc_consume] at h
+      simp only [step, List.length_nil] at h
+      have hd := drain_sound cap pre
+      simp only at hd
+      obtain ⟨_, hlen, _, hun⟩ := hd
+      rw [e]
+      simp only [reportedTotal, yieldedTotal, pushesIn]
+      omega
+
+/-- **counts_conserved.** Over ANY sequential history (any capacity including 0, any number of push/drain cycles, any
+    values and random choices) the numbers the drains report add up to the truth: the sum of `unsampled_len` over all
+    drains of the history, plus the values still pending at its end, is exactly the number of pushes made — no push is
+    ever counted twice, in two cycles, or not at all.  (`drain_sound`/`rate_exact` are the per-drain statements; this is
+    their lift to whole histories, with the drains read from the model's `consume`, not from the ghost.) -/
+theorem counts_conserved (cap : Nat) (ops : List Op) :
+    reportedTotal (ASR.new cap) ops + (pendOf ops).length = pushesIn ops := by
+  have h := (conservation_gen cap ops []).1
+  simpa [run, pendOf] using h
+
+/-- **yield_never_exceeds_report.** Over any history the drains never hand out more values than they report pushed, and
+    a history that ends with a drain has reported every push. -/
+theorem yield_never_exceeds_report (cap : Nat) (ops : List Op) :
+    yieldedTotal (ASR.new cap) ops ≤ reportedTotal (ASR.new cap) ops
+    ∧ reportedTotal (ASR.new cap) (ops ++ [Op.consume]) = pushesIn (ops ++ [Op.consume]) := by
+  refine ⟨by simpa [run] using (conservation_gen cap ops []).2, ?_⟩
+  have h := counts_conserved cap (ops ++ [Op.consume])
+  rw [pendOf_snoc_consume] at h
+  simpa using h
+
+example : reportedTotal (ASR.new 1) [.push 7 0, .push 8 0, .consume, .push 9 0, .consume, .push 1 0] = 3
+    ∧ yieldedTotal (ASR.new 1) [.push 7 0, .push 8 0, .consume, .push 9 0, .consume, .push 1 0] = 2
+    ∧ pushesIn [.push 7 0, .push 8 0, .consume, .push 9 0, .consume, .push 1 0] = 4 := by decide
+
 end MetricsVerif.C16
